@@ -8,23 +8,26 @@ import CelmaVerif.Lemmas.ContainersSeq
 -/
 namespace CelmaVerif.Containers
 
+section arr
+variable {α : Type} [DecidableEq α] (E : Elem α)
+
 /-- the values that are stored out of `done` -/
-def keepA (o : Opts) (done : List Int) : List Int := if o.unique then dedupInto [] done else done
+def keepA (o : Opts) (done : List α) : List α := if o.unique then dedupInto [] done else done
 
-def valI (o : Opts) (t : List Char) : Option Int := convInt (applyFmt o.fmt t)
-def AcceptsI (o : Opts) (t : List Char) : Prop := runChecks o.checks t = none ∧ (valI o t).isSome = true
-def valsI (o : Opts) (ts : List (List Char)) : List Int := ts.filterMap (valI o)
+def valI (o : Opts) (t : List Char) : Option α := E.conv (applyFmt o.fmt t)
+def AcceptsI (o : Opts) (t : List Char) : Prop := runChecks o.checks t = none ∧ (valI E o t).isSome = true
+def valsI (o : Opts) (ts : List (List Char)) : List α := ts.filterMap (valI E o)
 
-def ArrInv (o : Opts) (init : List Int) (s : ArrState) (done : List Int) : Prop :=
-  ∃ X : List Int, s.slots = X ++ init.drop s.idx ∧ X.length = s.idx ∧ s.idx ≤ init.length ∧
+def ArrInv (o : Opts) (init : List α) (s : ArrState α) (done : List α) : Prop :=
+  ∃ X : List α, s.slots = X ++ init.drop s.idx ∧ X.length = s.idx ∧ s.idx ≤ init.length ∧
     X.Perm (keepA o done) ∧ (o.sort = false → X = keepA o done)
 
-theorem keepA_snoc_old (o : Opts) (done : List Int) (v : Int) (hu : o.unique = true) (hm : v ∈ done) :
+theorem keepA_snoc_old (o : Opts) (done : List α) (v : α) (hu : o.unique = true) (hm : v ∈ done) :
     keepA o (done ++ [v]) = keepA o done := by
   unfold keepA
   rw [if_pos hu, if_pos hu, dedupInto_snoc, if_pos (Or.inr hm), List.append_nil]
 
-theorem keepA_snoc_new (o : Opts) (done : List Int) (v : Int) (h : o.unique = true → v ∉ done) :
+theorem keepA_snoc_new (o : Opts) (done : List α) (v : α) (h : o.unique = true → v ∉ done) :
     keepA o (done ++ [v]) = keepA o done ++ [v] := by
   unfold keepA
   cases hu : o.unique
@@ -33,16 +36,16 @@ theorem keepA_snoc_new (o : Opts) (done : List Int) (v : Int) (h : o.unique = tr
     rw [dedupInto_snoc, if_neg]
     simpa using h hu
 
-theorem mem_keepA (o : Opts) (done : List Int) (v : Int) (hu : o.unique = true) : v ∈ keepA o done ↔ v ∈ done := by
+theorem mem_keepA (o : Opts) (done : List α) (v : α) (hu : o.unique = true) : v ∈ keepA o done ↔ v ∈ done := by
   unfold keepA
   rw [if_pos hu, mem_dedupInto]
   simp
 
 /-- one accepted token while there is room -/
-theorem arrStep_ok (o : Opts) (init : List Int) (s : ArrState) (done : List Int) (t : List Char) (v : Int)
+theorem arrStep_ok (o : Opts) (init : List α) (s : ArrState α) (done : List α) (t : List Char) (v : α)
     (hi : ArrInv o init s done) (hroom : s.idx < init.length) (hchk : runChecks o.checks t = none)
-    (hval : valI o t = some v) (hnd : ¬ (o.unique = true ∧ o.dupErr = true ∧ v ∈ done)) :
-    ∃ s', arrStep o false s t = .ok s' ∧ ArrInv o init s' (done ++ [v]) := by
+    (hval : valI E o t = some v) (hnd : ¬ (o.unique = true ∧ o.dupErr = true ∧ v ∈ done)) :
+    ∃ s', arrStep E o false s t = .ok s' ∧ ArrInv o init s' (done ++ [v]) := by
   obtain ⟨X, hsl, hlen, hle, hperm, hex⟩ := hi
   have hslen : s.slots.length = init.length := by rw [hsl]; simp; omega
   have htake : s.slots.take s.idx = X := by rw [hsl]; exact List.take_left' hlen
@@ -87,25 +90,25 @@ theorem arrStep_ok (o : Opts) (init : List Int) (s : ArrState) (done : List Int)
       rw [keepA_snoc_new o done v hnew, hex h]
 
 /-- room for every token: when token number `j` arrives, fewer than N values have been stored -/
-def Fits (o : Opts) (n : Nat) (done vs : List Int) : Prop :=
+def Fits (o : Opts) (n : Nat) (done vs : List α) : Prop :=
   ∀ j, j < vs.length → (keepA o (done ++ vs.take j)).length < n
 
-def DupFreeI (o : Opts) (all : List Int) : Prop := o.unique = true → o.dupErr = true → all.Nodup
+def DupFreeI (o : Opts) (all : List α) : Prop := o.unique = true → o.dupErr = true → all.Nodup
 
-theorem idx_of_inv {o : Opts} {init : List Int} {s : ArrState} {done : List Int} (hi : ArrInv o init s done) :
+theorem idx_of_inv {o : Opts} {init : List α} {s : ArrState α} {done : List α} (hi : ArrInv o init s done) :
     s.idx = (keepA o done).length := by
   obtain ⟨X, _, hlen, _, hperm, _⟩ := hi
   rw [← hlen, hperm.length_eq]
 
-theorem arrElems_inv (o : Opts) (init : List Int) :
-    ∀ (ts : List (List Char)) (s : ArrState) (done : List Int), ArrInv o init s done →
-      (∀ t ∈ ts, AcceptsI o t) → DupFreeI o (done ++ valsI o ts) → Fits o init.length done (valsI o ts) →
-      ∃ s', arrElems o false s ts = (s', none) ∧ ArrInv o init s' (done ++ valsI o ts)
+theorem arrElems_inv (o : Opts) (init : List α) :
+    ∀ (ts : List (List Char)) (s : ArrState α) (done : List α), ArrInv o init s done →
+      (∀ t ∈ ts, AcceptsI E o t) → DupFreeI o (done ++ valsI E o ts) → Fits o init.length done (valsI E o ts) →
+      ∃ s', arrElems E o false s ts = (s', none) ∧ ArrInv o init s' (done ++ valsI E o ts)
   | [], s, done, hi, _, _, _ => ⟨s, rfl, by simpa [valsI] using hi⟩
   | t :: ts, s, done, hi, hacc, hdf, hfit => by
     obtain ⟨hchk, hconv⟩ := hacc t List.mem_cons_self
     obtain ⟨v, hvt⟩ := Option.isSome_iff_exists.mp hconv
-    have hvals : valsI o (t :: ts) = v :: valsI o ts := by simp [valsI, hvt]
+    have hvals : valsI E o (t :: ts) = v :: valsI E o ts := by simp [valsI, hvt]
     have hroom : s.idx < init.length := by
       have := hfit 0 (by rw [hvals]; simp)
       rw [idx_of_inv hi]
@@ -115,9 +118,9 @@ theorem arrElems_inv (o : Opts) (init : List Int) :
       have hd := hdf hu he
       rw [hvals] at hd
       exact (List.nodup_append.mp hd).2.2 v hm v List.mem_cons_self rfl
-    obtain ⟨s1, hs1, hi1⟩ := arrStep_ok o init s done t v hi hroom hchk hvt hnd
-    have hassoc : done ++ valsI o (t :: ts) = (done ++ [v]) ++ valsI o ts := by rw [hvals]; simp
-    have hfit' : Fits o init.length (done ++ [v]) (valsI o ts) := by
+    obtain ⟨s1, hs1, hi1⟩ := arrStep_ok E o init s done t v hi hroom hchk hvt hnd
+    have hassoc : done ++ valsI E o (t :: ts) = (done ++ [v]) ++ valsI E o ts := by rw [hvals]; simp
+    have hfit' : Fits o init.length (done ++ [v]) (valsI E o ts) := by
       intro j hj
       have := hfit (j + 1) (by rw [hvals]; simp; omega)
       rw [hvals] at this
@@ -128,58 +131,58 @@ theorem arrElems_inv (o : Opts) (init : List Int) :
     rw [arrElems, hs1]
     exact hs'
 
-theorem sortPrefix_inv (o : Opts) (init : List Int) (s : ArrState) (done : List Int) (hi : ArrInv o init s done)
+theorem sortPrefix_inv (hl : LawfulLe E.le) (o : Opts) (init : List α) (s : ArrState α) (done : List α) (hi : ArrInv o init s done)
     (hs : o.sort = true) :
-    ArrInv o init s.sortPrefix done ∧ Sorted intElem.le (s.sortPrefix.slots.take s.sortPrefix.idx) := by
+    ArrInv o init (s.sortPrefix E) done ∧ Sorted E.le ((s.sortPrefix E).slots.take (s.sortPrefix E).idx) := by
   obtain ⟨X, hsl, hlen, hle, hperm, _⟩ := hi
   have htake : s.slots.take s.idx = X := by rw [hsl]; exact List.take_left' hlen
   have hdrop : s.slots.drop s.idx = init.drop s.idx := by rw [hsl]; exact List.drop_left' hlen
-  have hl2 : (isort intElem.le X).length = s.idx := by rw [(isort_perm X).length_eq]; exact hlen
+  have hl2 : (isort E.le X).length = s.idx := by rw [(isort_perm X).length_eq]; exact hlen
   constructor
-  · refine ⟨isort intElem.le X, ?_, hl2, hle, (isort_perm X).trans hperm, ?_⟩
+  · refine ⟨isort E.le X, ?_, hl2, hle, (isort_perm X).trans hperm, ?_⟩
     · simp only [ArrState.sortPrefix, htake, hdrop]
     · intro h; rw [hs] at h; cases h
   · simp only [ArrState.sortPrefix, htake, hdrop]
     rw [List.take_left' hl2]
-    exact isort_sorted intLe_lawful X
+    exact isort_sorted hl X
 
 /-- invariant plus "the filled prefix is ascending when sorting is on and at least one use has been made" -/
-theorem arrAssignP_inv (o : Opts) (init : List Int) (s : ArrState) (value : List Char) (done : List Int)
-    (hi : ArrInv o init s done) (hacc : ∀ t ∈ tokens o.sep value, AcceptsI o t)
-    (hdf : DupFreeI o (done ++ valsI o (tokens o.sep value)))
-    (hfit : Fits o init.length done (valsI o (tokens o.sep value))) :
-    ∃ s', arrAssignP o false s value = (s', none) ∧ ArrInv o init s' (done ++ valsI o (tokens o.sep value)) ∧
-      (o.sort = true → Sorted intElem.le (s'.slots.take s'.idx)) := by
-  obtain ⟨s1, hs1, hi1⟩ := arrElems_inv o init _ s done hi hacc hdf hfit
+theorem arrAssignP_inv (hl : LawfulLe E.le) (o : Opts) (init : List α) (s : ArrState α) (value : List Char) (done : List α)
+    (hi : ArrInv o init s done) (hacc : ∀ t ∈ tokens o.sep value, AcceptsI E o t)
+    (hdf : DupFreeI o (done ++ valsI E o (tokens o.sep value)))
+    (hfit : Fits o init.length done (valsI E o (tokens o.sep value))) :
+    ∃ s', arrAssignP E o false s value = (s', none) ∧ ArrInv o init s' (done ++ valsI E o (tokens o.sep value)) ∧
+      (o.sort = true → Sorted E.le (s'.slots.take s'.idx)) := by
+  obtain ⟨s1, hs1, hi1⟩ := arrElems_inv E o init _ s done hi hacc hdf hfit
   unfold arrAssignP
   rw [hs1]
   cases hs : o.sort
   · exact ⟨s1, by simp, hi1, by simp⟩
-  · have := sortPrefix_inv o init s1 _ hi1 hs
-    exact ⟨s1.sortPrefix, by simp, this.1, fun _ => this.2⟩
+  · have := sortPrefix_inv E hl o init s1 _ hi1 hs
+    exact ⟨s1.sortPrefix E, by simp, this.1, fun _ => this.2⟩
 
-theorem arrRunP_inv (o : Opts) (init : List Int) :
-    ∀ (uses : List (List Char)) (s : ArrState) (done : List Int), ArrInv o init s done →
-      (∀ t ∈ allTokens o.sep uses, AcceptsI o t) → DupFreeI o (done ++ valsI o (allTokens o.sep uses)) →
-      Fits o init.length done (valsI o (allTokens o.sep uses)) → uses ≠ [] →
-      ∃ s', arrRunP o false s uses = (s', none) ∧ ArrInv o init s' (done ++ valsI o (allTokens o.sep uses)) ∧
-        (o.sort = true → Sorted intElem.le (s'.slots.take s'.idx))
+theorem arrRunP_inv (hl : LawfulLe E.le) (o : Opts) (init : List α) :
+    ∀ (uses : List (List Char)) (s : ArrState α) (done : List α), ArrInv o init s done →
+      (∀ t ∈ allTokens o.sep uses, AcceptsI E o t) → DupFreeI o (done ++ valsI E o (allTokens o.sep uses)) →
+      Fits o init.length done (valsI E o (allTokens o.sep uses)) → uses ≠ [] →
+      ∃ s', arrRunP E o false s uses = (s', none) ∧ ArrInv o init s' (done ++ valsI E o (allTokens o.sep uses)) ∧
+        (o.sort = true → Sorted E.le (s'.slots.take s'.idx))
   | [], _, _, _, _, _, _, hne => absurd rfl hne
   | u :: us, s, done, hi, hacc, hdf, hfit, _ => by
     have htok : allTokens o.sep (u :: us) = tokens o.sep u ++ allTokens o.sep us := by simp [allTokens]
-    have hvals : valsI o (allTokens o.sep (u :: us)) = valsI o (tokens o.sep u) ++ valsI o (allTokens o.sep us) := by
+    have hvals : valsI E o (allTokens o.sep (u :: us)) = valsI E o (tokens o.sep u) ++ valsI E o (allTokens o.sep us) := by
       rw [htok]; simp [valsI, List.filterMap_append]
-    have hdf1 : DupFreeI o (done ++ valsI o (tokens o.sep u)) := by
+    have hdf1 : DupFreeI o (done ++ valsI E o (tokens o.sep u)) := by
       intro hu he
       have hd := hdf hu he
       rw [hvals, ← List.append_assoc] at hd
       exact (List.nodup_append.mp hd).1
-    have hfit1 : Fits o init.length done (valsI o (tokens o.sep u)) := by
+    have hfit1 : Fits o init.length done (valsI E o (tokens o.sep u)) := by
       intro j hj
       have := hfit j (by rw [hvals]; simp; omega)
       rw [hvals, List.take_append_of_le_length (by omega)] at this
       exact this
-    obtain ⟨s1, hs1, hi1, hsort1⟩ := arrAssignP_inv o init s u done hi
+    obtain ⟨s1, hs1, hi1, hsort1⟩ := arrAssignP_inv E hl o init s u done hi
       (fun t ht => hacc t (by rw [htok]; exact List.mem_append_left _ ht)) hdf1 hfit1
     rw [arrRunP, hs1]
     simp only
@@ -189,12 +192,12 @@ theorem arrRunP_inv (o : Opts) (init : List Int) :
       rw [hvals]
       simpa [allTokens, valsI] using hi1
     | cons u2 us2 =>
-      have hfit2 : Fits o init.length (done ++ valsI o (tokens o.sep u)) (valsI o (allTokens o.sep (u2 :: us2))) := by
+      have hfit2 : Fits o init.length (done ++ valsI E o (tokens o.sep u)) (valsI E o (allTokens o.sep (u2 :: us2))) := by
         intro j hj
-        have := hfit ((valsI o (tokens o.sep u)).length + j) (by rw [hvals]; simp; omega)
+        have := hfit ((valsI E o (tokens o.sep u)).length + j) (by rw [hvals]; simp; omega)
         rw [hvals, List.take_append, List.take_of_length_le (by omega)] at this
         simpa [List.append_assoc] using this
-      obtain ⟨s2, hs2, hi2, hsort2⟩ := arrRunP_inv o init (u2 :: us2) s1 (done ++ valsI o (tokens o.sep u)) hi1
+      obtain ⟨s2, hs2, hi2, hsort2⟩ := arrRunP_inv hl o init (u2 :: us2) s1 (done ++ valsI E o (tokens o.sep u)) hi1
         (fun t ht => hacc t (by rw [htok]; exact List.mem_append_right _ ht))
         (by rw [List.append_assoc, ← hvals]; exact hdf) hfit2 (by simp)
       refine ⟨s2, hs2, ?_, hsort2⟩
@@ -202,23 +205,23 @@ theorem arrRunP_inv (o : Opts) (init : List Int) :
       exact hi2
 
 /-- the refinement for arrays -/
-theorem arrRunP_finalSpec (o : Opts) (init : List Int) (uses : List (List Char)) (hne : uses ≠ [])
-    (hacc : ∀ t ∈ allTokens o.sep uses, AcceptsI o t)
-    (hdf : DupFreeI o (valsI o (allTokens o.sep uses)))
-    (hfit : Fits o init.length [] (valsI o (allTokens o.sep uses))) :
-    arrRunP o false ⟨init, 0⟩ uses = (arrFinalSpec o init (valsI o (allTokens o.sep uses)), none) := by
+theorem arrRunP_finalSpec (hl : LawfulLe E.le) (o : Opts) (init : List α) (uses : List (List Char)) (hne : uses ≠ [])
+    (hacc : ∀ t ∈ allTokens o.sep uses, AcceptsI E o t)
+    (hdf : DupFreeI o (valsI E o (allTokens o.sep uses)))
+    (hfit : Fits o init.length [] (valsI E o (allTokens o.sep uses))) :
+    arrRunP E o false ⟨init, 0⟩ uses = (arrFinalSpec E o init (valsI E o (allTokens o.sep uses)), none) := by
   have hi0 : ArrInv o init ⟨init, 0⟩ [] := by
     refine ⟨[], by simp, rfl, by simp, ?_, ?_⟩
     · simp [keepA, dedupInto]
     · intro _; simp [keepA, dedupInto]
-  obtain ⟨s', hs', hi', hsort⟩ := arrRunP_inv o init uses ⟨init, 0⟩ [] hi0 hacc (by simpa using hdf)
+  obtain ⟨s', hs', hi', hsort⟩ := arrRunP_inv E hl o init uses ⟨init, 0⟩ [] hi0 hacc (by simpa using hdf)
     (by simpa using hfit) hne
   rw [hs']
   congr 1
   simp only [List.nil_append] at hi'
   obtain ⟨X, hsl, hlen, _, hperm, hex⟩ := hi'
   have htake : s'.slots.take s'.idx = X := by rw [hsl]; exact List.take_left' hlen
-  have hidx : s'.idx = (keepA o (valsI o (allTokens o.sep uses))).length := by rw [← hlen, hperm.length_eq]
+  have hidx : s'.idx = (keepA o (valsI E o (allTokens o.sep uses))).length := by rw [← hlen, hperm.length_eq]
   unfold arrFinalSpec
   cases s' with
   | mk slots idx =>
@@ -232,11 +235,12 @@ theorem arrRunP_finalSpec (o : Opts) (init : List Int) (uses : List (List Char))
     · simpa using hex hs
     · simp only [if_true]
       rw [← htake]
-      exact eq_isort_of_sorted_perm intLe_lawful (hsort hs) (htake ▸ hperm)
+      exact eq_isort_of_sorted_perm hl (hsort hs) (htake ▸ hperm)
 
 /-! nothing is ever written outside the N slots, whatever the input -/
 
-theorem store_safe (s : ArrState) (v : Int) (hlt : s.idx < s.slots.length) :
+omit [DecidableEq α] in
+theorem store_safe (s : ArrState α) (v : α) (hlt : s.idx < s.slots.length) :
     (∀ x, s.store v ≠ .oob x) ∧
     (∀ s', s.store v = .ok s' → s'.idx ≤ s'.slots.length ∧ s'.slots.length = s.slots.length) := by
   unfold ArrState.store
@@ -246,9 +250,9 @@ theorem store_safe (s : ArrState) (v : Int) (hlt : s.idx < s.slots.length) :
   cases h'
   exact ⟨by simp; omega, by simp⟩
 
-theorem arrStep_safe (o : Opts) (w : Bool) (s : ArrState) (t : List Char) (h : s.idx ≤ s.slots.length) :
-    (∀ x, arrStep o w s t ≠ .oob x) ∧
-    (∀ s', arrStep o w s t = .ok s' → s'.idx ≤ s'.slots.length ∧ s'.slots.length = s.slots.length) := by
+theorem arrStep_safe (o : Opts) (w : Bool) (s : ArrState α) (t : List Char) (h : s.idx ≤ s.slots.length) :
+    (∀ x, arrStep E o w s t ≠ .oob x) ∧
+    (∀ s', arrStep E o w s t = .ok s' → s'.idx ≤ s'.slots.length ∧ s'.slots.length = s.slots.length) := by
   unfold arrStep
   by_cases hfull : s.idx = s.slots.length
   · simp [hfull]
@@ -258,7 +262,7 @@ theorem arrStep_safe (o : Opts) (w : Bool) (s : ArrState) (t : List Char) (h : s
     | some e => simp
     | none =>
       simp only
-      cases hcv : convInt (applyFmt o.fmt t) with
+      cases hcv : E.conv (applyFmt o.fmt t) with
       | none => simp
       | some v =>
         simp only
@@ -269,14 +273,14 @@ theorem arrStep_safe (o : Opts) (w : Bool) (s : ArrState) (t : List Char) (h : s
           · simp [h]
           · simp
 
-theorem arrElems_safe (o : Opts) (w : Bool) : ∀ (ts : List (List Char)) (s : ArrState), s.idx ≤ s.slots.length →
-    (∀ x, (arrElems o w s ts).2 ≠ some (.oob x)) ∧ (arrElems o w s ts).1.idx ≤ (arrElems o w s ts).1.slots.length ∧
-      (arrElems o w s ts).1.slots.length = s.slots.length
+theorem arrElems_safe (o : Opts) (w : Bool) : ∀ (ts : List (List Char)) (s : ArrState α), s.idx ≤ s.slots.length →
+    (∀ x, (arrElems E o w s ts).2 ≠ some (.oob x)) ∧ (arrElems E o w s ts).1.idx ≤ (arrElems E o w s ts).1.slots.length ∧
+      (arrElems E o w s ts).1.slots.length = s.slots.length
   | [], s, h => by simp [arrElems, h]
   | t :: ts, s, h => by
-    have hs := arrStep_safe o w s t h
+    have hs := arrStep_safe E o w s t h
     rw [arrElems]
-    cases hst : arrStep o w s t with
+    cases hst : arrStep E o w s t with
     | ok s1 =>
       have h1 := hs.2 s1 hst
       have := arrElems_safe o w ts s1 h1.1
@@ -285,21 +289,22 @@ theorem arrElems_safe (o : Opts) (w : Bool) : ∀ (ts : List (List Char)) (s : A
     | throw e => simp [h]
     | oob x => exact absurd hst (hs.1 x)
 
-theorem sortPrefix_safe (s : ArrState) (h : s.idx ≤ s.slots.length) :
-    s.sortPrefix.idx ≤ s.sortPrefix.slots.length ∧ s.sortPrefix.slots.length = s.slots.length := by
-  have : (isort intElem.le (s.slots.take s.idx)).length = s.idx := by
+omit [DecidableEq α] in
+theorem sortPrefix_safe (s : ArrState α) (h : s.idx ≤ s.slots.length) :
+    (s.sortPrefix E).idx ≤ (s.sortPrefix E).slots.length ∧ (s.sortPrefix E).slots.length = s.slots.length := by
+  have : (isort E.le (s.slots.take s.idx)).length = s.idx := by
     rw [(isort_perm _).length_eq]; simp; omega
   simp only [ArrState.sortPrefix, List.length_append, this, List.length_drop]
   omega
 
-theorem arrRunP_safe (o : Opts) (w : Bool) : ∀ (uses : List (List Char)) (s : ArrState), s.idx ≤ s.slots.length →
-    (∀ x, (arrRunP o w s uses).2 ≠ some (.oob x)) ∧ (arrRunP o w s uses).1.slots.length = s.slots.length
+theorem arrRunP_safe (o : Opts) (w : Bool) : ∀ (uses : List (List Char)) (s : ArrState α), s.idx ≤ s.slots.length →
+    (∀ x, (arrRunP E o w s uses).2 ≠ some (.oob x)) ∧ (arrRunP E o w s uses).1.slots.length = s.slots.length
   | [], s, _ => by simp [arrRunP]
   | u :: us, s, h => by
-    have he := arrElems_safe o w (tokens o.sep u) s h
+    have he := arrElems_safe E o w (tokens o.sep u) s h
     rw [arrRunP]
     unfold arrAssignP
-    cases hel : arrElems o w s (tokens o.sep u) with
+    cases hel : arrElems E o w s (tokens o.sep u) with
     | mk s1 st =>
       rw [hel] at he
       cases st with
@@ -308,17 +313,19 @@ theorem arrRunP_safe (o : Opts) (w : Bool) : ∀ (uses : List (List Char)) (s : 
         simp only
         by_cases hs : o.sort = true
         · rw [if_pos hs]
-          have h2 := sortPrefix_safe s1 he.2.1
-          have := arrRunP_safe o w us s1.sortPrefix h2.1
+          have h2 := sortPrefix_safe E s1 he.2.1
+          have := arrRunP_safe o w us (s1.sortPrefix E) h2.1
           exact ⟨this.1, this.2.trans (h2.2.trans he.2.2)⟩
         · rw [if_neg hs]
           have := arrRunP_safe o w us s1 he.2.1
           exact ⟨this.1, this.2.trans he.2.2⟩
 
 /-- the element that arrives when the array is full is refused (whatever it is), the array keeps its size -/
-theorem arrStep_full (o : Opts) (w : Bool) (s : ArrState) (t : List Char) (h : s.idx = s.slots.length) :
-    arrStep o w s t = .throw .runtime_error := by
+theorem arrStep_full (o : Opts) (w : Bool) (s : ArrState α) (t : List Char) (h : s.idx = s.slots.length) :
+    arrStep E o w s t = .throw .runtime_error := by
   unfold arrStep
   rw [if_pos h]
+
+end arr
 
 end CelmaVerif.Containers
